@@ -248,7 +248,9 @@ def r_bounds(ctx: RuleCtx, col: Collector):
         for which, arg, kind, sign, usr in (("lower", c.args[1], "max", "-", "xmin"), ("upper", c.args[2], "min", "+", "xmax")):
             terms = bound_terms(arg, du, kind)
             has_user = any(norm(t) == usr for t in terms)
-            has_move = any(_is_offset(t, cur, sign, ["move"], du) for t in terms)
+            has_move = any(isinstance(t, ast.BinOp) and norm(t) == f"{cur}{sign}move" for t in terms) or \
+                any(isinstance(t, ast.Name) and _single_def(du, t.id) is not None and norm(_single_def(du, t.id)) == f"{cur}{sign}move"
+                    for t in terms)
             construct = f"minimize_oc {which} clip bound"
             if has_user and has_move:
                 col.ok(where_of(oc), oc.rel, line_of(arg), construct, f"{U(arg)} >= / <= {{{usr}, {cur}{sign}move}}")
@@ -578,6 +580,27 @@ def r_bisect(ctx: RuleCtx, col: Collector):
                 upd = n
         if cand is None or upd is None:
             raise AnalysisError("minimize_oc: bisection candidate / bracket update not recognised")
+        # the bracket is re-initialised from the caller's initial values in every outer iteration
+        inits = []
+        par = getattr(lp, "_parent", None)
+        sibs = par.body if par is not None and hasattr(par, "body") else []
+        for st in sibs[:sibs.index(lp)] if lp in sibs else []:
+            if isinstance(st, ast.Assign) and isinstance(st.targets[0], ast.Tuple) and {norm(x) for x in st.targets[0].elts} == {lo, hi}:
+                inits.append(st)
+        if inits:
+            st = inits[-1]
+            vals = dict(zip([norm(x) for x in st.targets[0].elts], st.value.elts if isinstance(st.value, ast.Tuple) else []))
+            params = set(oc.pos_params()) | set(oc.kwonly())
+            okinit = all(isinstance(v, ast.Name) and v.id in params for v in vals.values()) and len(vals) == 2
+            if okinit:
+                col.ok(where_of(oc), oc.rel, line_of(st), "bisection bracket initialised from the caller's bracket", stmt_key(st))
+            else:
+                col.bad(where_of(oc), oc.rel, line_of(st), "bisection bracket initialised from the caller's bracket",
+                        f"'{stmt_key(st)}' does not start the bisection from the caller's full bracket: a multiplier outside "
+                        f"the narrowed bracket cannot be found and the volume target is missed")
+        else:
+            col.bad(where_of(oc), oc.rel, line_of(lp), "bisection bracket initialised from the caller's bracket",
+                    "the bracket is not (re-)initialised directly before the bisection loop")
         assume: List[str] = []
         signs = {mid: 1}
         assume.append(f"the multiplier {mid} is positive (bracket starts at non-negative values)")
